@@ -449,6 +449,9 @@ def cases_of(shard, tier):
                 continue
             for b, c in itertools.product(V, repeat=2):
                 yield {"semiring": name, "law": law, "args": [a, b, c]}
+    elif kind == "compose3":
+        for c in cases_compose3(shard[1], shard[2]):
+            yield c
     elif kind == "compose":
         i, n = shard[1], shard[2]
         d1 = sym_depth1(sym_atoms(tier))
@@ -463,6 +466,27 @@ def cases_of(shard, tier):
             for y in d1:
                 for op in ("plus", "times", "normalize"):
                     yield {"semiring": "sym", "law": "compose", "args": [[op, x, y]]}
+
+
+def cases_compose3(i, n):
+    """depth-3 trees op(T2, a) / op(a, T2) / negate(T2) where T2 = op(x, y) with x, y of depth <= 1 over the
+    atoms {0.25, 0.5} (an expression that begins and ends with a parenthesised factor needs three
+    nested calls: plus(times(plus(x,y), negate(z)), w))"""
+    atoms = [0.25, 0.5]
+    d1 = sym_depth1(atoms)
+    k = 0
+    for x in d1:
+        for y in d1:
+            for op2 in ("plus", "times", "normalize"):
+                k += 1
+                if k % n != i:
+                    continue
+                t2 = [op2, x, y]
+                yield {"semiring": "sym", "law": "compose", "args": [["negate", t2]]}
+                for a in atoms:
+                    for op3 in ("plus", "times", "normalize"):
+                        yield {"semiring": "sym", "law": "compose", "args": [[op3, t2, a]]}
+                        yield {"semiring": "sym", "law": "compose", "args": [[op3, a, t2]]}
 
 
 def _simpler_values(v):
@@ -537,6 +561,8 @@ class C12(Prop):
         n = 8 if tier == "quick" else 16
         for i in range(n):
             res.append(["compose", i, n])
+        for i in range(8):
+            res.append(["compose3", i, 8])
         return res
 
     def run_shard(self, shard, tier, acc):
